@@ -143,6 +143,18 @@ pub enum T12 {
     CapHi(u32),
 }
 
+/// IPv4 source address of the server frame (dhcpv4::Socket::process stores the OFFER's source
+/// as the address renewals are unicast to)
+#[derive(Clone, Copy, PartialEq, Eq, Debug, Hash)]
+pub enum S {
+    Server,
+    Unspecified,
+    OtherHost,
+    OffSubnet,
+}
+const SRC_OTHER_HOST: [u8; 4] = [192, 168, 1, 7];
+const SRC_OFF_SUBNET: [u8; 4] = [10, 9, 8, 7];
+
 #[derive(Clone, Copy, PartialEq, Eq, Hash)]
 pub struct MsgSpec {
     typ: MT,
@@ -155,6 +167,7 @@ pub struct MsgSpec {
     t12: T12,
     extras: bool,
     unicast: bool,
+    src: S,
 }
 
 const BASE_LEASE: u32 = 600;
@@ -170,6 +183,7 @@ fn base(typ: MT) -> MsgSpec {
         t12: T12::Absent,
         extras: true,
         unicast: false,
+        src: S::Server,
     }
 }
 
@@ -208,6 +222,9 @@ impl std::fmt::Debug for MsgSpec {
         }
         if self.unicast {
             parts.push("unicast".into());
+        }
+        if self.src != S::Server {
+            parts.push(format!("ip-src={:?}", self.src));
         }
         write!(f, "{}}}", parts.join(" "))
     }
@@ -276,6 +293,13 @@ fn alphabet(alpha: u8, earlier: bool, cap: Option<u32>) -> Vec<MsgSpec> {
     }
     v.push(MsgSpec { lease: None, ..o });
     v.push(MsgSpec { unicast: true, ..o });
+    // IP source of the frame: singly, and paired with unicast delivery
+    for sc in [S::Unspecified, S::OtherHost, S::OffSubnet] {
+        v.push(MsgSpec { src: sc, ..o });
+        if alpha == 0 {
+            v.push(MsgSpec { src: sc, unicast: true, ..o });
+        }
+    }
     // ACK: base + all single deviations
     let a = base(MT::Ack);
     v.push(a);
@@ -301,6 +325,9 @@ fn alphabet(alpha: u8, earlier: bool, cap: Option<u32>) -> Vec<MsgSpec> {
     }
     v.push(MsgSpec { extras: false, ..a });
     v.push(MsgSpec { unicast: true, ..a });
+    for sc in [S::Unspecified, S::OtherHost, S::OffSubnet] {
+        v.push(MsgSpec { src: sc, ..a });
+    }
     if alpha == 0 {
         // pairs over a reduced set: lease x T1/T2 (the two dimensions that interact in
         // parse_ack), unicast delivery x tiny leases
@@ -317,6 +344,12 @@ fn alphabet(alpha: u8, earlier: bool, cap: Option<u32>) -> Vec<MsgSpec> {
         }
         v.push(MsgSpec { unicast: true, lease: Some(0), ..a });
         v.push(MsgSpec { unicast: true, lease: Some(1), ..a });
+        // IP source paired with two option deviations (no router: the only way to an off-subnet
+        // server is gone; short lease)
+        for sc in [S::Unspecified, S::OtherHost, S::OffSubnet] {
+            v.push(MsgSpec { src: sc, extras: false, ..a });
+            v.push(MsgSpec { src: sc, lease: Some(60), ..a });
+        }
     }
     // NAK
     let n = MsgSpec { yi: Y::Zero, mask: M::Absent, lease: None, extras: false, ..base(MT::Nak) };
@@ -520,7 +553,8 @@ struct Model {
     /// max(time the client became unconfigured, time of its last solicitation)
     unconf_ref: i64,
     nosol_pollats: u8,
-    arp_pending: Option<[u8; 4]>,
+    /// (sender, target) protocol address of the client's latest unanswered ARP request
+    arp_pending: Option<([u8; 4], [u8; 4])>,
     labels: u32,
 }
 
@@ -572,6 +606,8 @@ pub struct DhcpH {
     pending: Vec<Viol>,
     /// Interface::poll_at as of the end of the last poll
     pa: Option<i64>,
+    /// `Interface::poll` panicked in this history: reported, nothing more can be explored
+    dead: bool,
     hist_hash: u64,
     pub log: Vec<String>,
 }
@@ -709,7 +745,12 @@ impl DhcpH {
         };
         let dlen = repr.buffer_len();
         let ip_dst = if s.unicast { Ipv4Address::from(YI_UNI) } else { Ipv4Address::BROADCAST };
-        let ip_src = Ipv4Address::from(SERVER_IP);
+        let ip_src = Ipv4Address::from(match s.src {
+            S::Server => SERVER_IP,
+            S::Unspecified => [0; 4],
+            S::OtherHost => SRC_OTHER_HOST,
+            S::OffSubnet => SRC_OFF_SUBNET,
+        });
         let ip = Ipv4Repr { src_addr: ip_src, dst_addr: ip_dst, next_header: IpProtocol::Udp, payload_len: 8 + dlen, hop_limit: 64 };
         let eth = EthernetRepr {
             src_addr: EthernetAddress(SERVER_MAC),
@@ -734,12 +775,12 @@ impl DhcpH {
         buf
     }
 
-    fn build_arp_reply(&self, client_ip: [u8; 4]) -> Vec<u8> {
+    fn build_arp_reply(&self, client_ip: [u8; 4], asked: [u8; 4]) -> Vec<u8> {
         use smoltcp::wire::{ArpOperation, ArpPacket, ArpRepr, EthernetFrame, EthernetProtocol, EthernetRepr};
         let arp = ArpRepr::EthernetIpv4 {
             operation: ArpOperation::Reply,
             source_hardware_addr: EthernetAddress(SERVER_MAC),
-            source_protocol_addr: Ipv4Address::from(SERVER_IP),
+            source_protocol_addr: Ipv4Address::from(asked),
             target_hardware_addr: EthernetAddress(CLIENT_MAC),
             target_protocol_addr: Ipv4Address::from(client_ip),
         };
@@ -770,7 +811,7 @@ impl DhcpH {
             let secs_capped = s.lease.map(|l| cap.map_or(l as u64, |c| c.min(l as u64)));
             let renewed = self.m.reported.is_some();
             let (t1, t2) = t12_values(s.t12, s.lease);
-            self.m.lease = Some(Lease {
+            let fresh = Lease {
                 e_stmt: s.lease.map(|l| self.now + l as i64 * US),
                 e_capped: secs_capped.map(|l| self.now + l as i64 * US),
                 secs_capped,
@@ -783,7 +824,27 @@ impl DhcpH {
                 // accepted frames all the time
                 faithful: !self.blocked(),
                 silent: true,
-                });
+            };
+            // LENIENT: the IPv4 source address of the frame is not among the statement's
+            // acceptance conditions, so an otherwise acceptable ACK from an unexpected source
+            // (0.0.0.0, another host, off-subnet) may be honoured or ignored by the client.  A
+            // Configured event after it is legitimate; if it arrives while a lease is already
+            // held (no event tells whether it was honoured) the client may go by either lease:
+            // expiry = the later of the two (no demand if either carries no lease option) and
+            // the order/attempt clauses are not judged for this lease any more.
+            let holds_lease = self.m.lease.is_some() && (self.m.reported.is_some() || ctx.delivered.iter().any(|d| d.1.is_empty()));
+            if s.src != S::Server && holds_lease {
+                let old = self.m.lease.as_mut().unwrap();
+                let later = |a: Option<i64>, b: Option<i64>| match (a, b) {
+                    (Some(x), Some(y)) => Some(x.max(y)),
+                    _ => None,
+                };
+                old.e_stmt = later(old.e_stmt, fresh.e_stmt);
+                old.e_capped = later(old.e_capped, fresh.e_capped);
+                old.faithful = false;
+            } else {
+                self.m.lease = Some(fresh);
+            }
             if renewed {
                 self.m.labels |= L_LEASE_RENEWED;
             }
@@ -814,10 +875,12 @@ impl DhcpH {
         match parse_tx(f) {
             Tx::ArpRequest { spa, tpa } => {
                 self.say(|| format!("client -> ARP who-has {} tell {}", ip4(tpa), ip4(spa)));
-                if tpa == SERVER_IP {
-                    self.m.arp_pending = Some(spa);
-                    // LENIENT: an ARP request for the server while bound is the visible part of
-                    // a unicast renewal attempt whose REQUEST cannot leave without the answer
+                {
+                    self.m.arp_pending = Some((spa, tpa));
+                    // LENIENT: an ARP request while bound (for the server the OFFER came from, or
+                    // for the router towards it; nothing else on this interface needs one) is the
+                    // visible part of a unicast renewal attempt whose REQUEST cannot leave
+                    // without the answer
                     if self.m.reported.is_some() {
                         if let Some(l) = self.m.lease.as_mut() {
                             l.renew_seen = true;
@@ -920,7 +983,28 @@ impl DhcpH {
             self.m.unconf_ref = self.now;
             self.m.nosol_pollats = 0;
         }
-        self.iface.poll(ts, &mut self.dev, &mut self.sockets);
+        if self.dead {
+            return false;
+        }
+        let r = {
+            let (iface, dev, sockets) = (&mut self.iface, &mut self.dev, &mut self.sockets);
+            std::panic::catch_unwind(std::panic::AssertUnwindSafe(|| {
+                iface.poll(ts, dev, sockets);
+            }))
+        };
+        if let Err(e) = r {
+            // a client that panics inside poll can neither renew nor give the address up
+            let msg = panic_msg(e);
+            let site = panic_site();
+            self.say(|| format!("PANIC inside Interface::poll: {} at {}", msg, last_panic_loc()));
+            out.push(Viol::new(
+                format!("C18/panic/{}", site),
+                format!("Interface::poll panicked at {} (now {}, reported {:?}): {}", last_panic_loc(), tsec(self.now), self.m.reported, msg),
+            ));
+            self.dead = true;
+            self.pa = None;
+            return false;
+        }
         let frames = self.dev.take_tx();
         let mut solicited = false;
         for (t, f) in frames {
@@ -1117,9 +1201,9 @@ impl DhcpH {
     }
 
     fn deliver_arp_reply(&mut self) {
-        if let Some(spa) = self.m.arp_pending.take() {
-            let f = self.build_arp_reply(spa);
-            self.say(|| format!("server -> ARP reply {} is-at {}", ip4(SERVER_IP), hex(&SERVER_MAC)));
+        if let Some((spa, tpa)) = self.m.arp_pending.take() {
+            let f = self.build_arp_reply(spa, tpa);
+            self.say(|| format!("server -> ARP reply {} is-at {}", ip4(tpa), hex(&SERVER_MAC)));
             self.dev.rx.push_back(f);
         }
     }
@@ -1189,6 +1273,7 @@ impl Harness for DhcpH {
             },
             pending: vec![],
             pa: None,
+            dead: false,
             hist_hash: 0x9e37_79b9_7f4a_7c15,
             log: vec![],
         };
@@ -1203,7 +1288,7 @@ impl Harness for DhcpH {
     fn enabled(&self) -> Vec<(Ev, u32)> {
         // after a clause-1 violation the lease clock no longer describes what the client holds
         // and every later verdict is suppressed: nothing left to check on this branch
-        if self.m.tainted {
+        if self.m.tainted || self.dead {
             return vec![];
         }
         let mut v: Vec<(Ev, u32)> = alphabet(self.cfg.alpha, self.m.earlier_xid.is_some(), self.cfg.max_lease).into_iter().map(|m| (Ev::Msg(m), 1)).collect();
@@ -1289,7 +1374,7 @@ impl Harness for DhcpH {
                     self.advance_to(p);
                 }
                 let sol = self.poll_step(&PollCtx::default(), out);
-                if was_unconf && self.m.reported.is_none() && !sol && !self.blocked() {
+                if was_unconf && self.m.reported.is_none() && !sol && !self.blocked() && !self.dead {
                     self.m.nosol_pollats += 1;
                     if self.m.nosol_pollats >= 3 {
                         out.push(Viol::new("C18/solicit/stuck", format!("unconfigured client polled 3 times in a row exactly at Interface::poll_at (now {}) without sending DISCOVER or REQUEST", tsec(self.now))));
@@ -1326,7 +1411,7 @@ impl Harness for DhcpH {
             }
             Ev::RunSilent(arp) => {
                 let mut n = 0;
-                while self.m.reported.is_some() {
+                while self.m.reported.is_some() && !self.dead {
                     if n >= RUN_CAP {
                         self.m.labels |= L_RUN_CAPPED;
                         break;
@@ -1420,7 +1505,8 @@ impl DhcpH {
         let rel = |t: i64| (t - self.now).max(-1);
         let _ = write!(
             out,
-            "|M blocked={} earlier={} req={} req_is_latest={} req_is_earlier={} lt={} rep={:?} taint={} unconf_age={} nosol={} arp={:?}",
+            "|M dead={} blocked={} earlier={} req={} req_is_latest={} req_is_earlier={} lt={} rep={:?} taint={} unconf_age={} nosol={} arp={:?}",
+            self.dead,
             self.blocked(),
             m.earlier_xid.is_some(),
             m.last_req_xid.is_some(),
@@ -1489,22 +1575,27 @@ fn narrate_choices(cfg: &Cfg, choices: &[u16]) -> (Vec<String>, Vec<Viol>) {
 
 pub fn run(tier: Tier) -> i32 {
     let mut rep = Report::new("C18", tier);
-    rep.assumptions.push("stimulus frames are built with smoltcp::wire emitters (trusted for building, not as oracle); what the client sends is read with an independent parser (RFC 826/951/2131 offsets)".into());
+    rep.assumptions.push("stimulus frames are built with smoltcp::wire emitters (trusted for building, not as oracle); what the client sends is read with an independent parser (RFC 826/951/2131 offsets); a panic inside Interface::poll is isolated with catch_unwind and reported as C18/panic/<file>".into());
     rep.assumptions.push("one dhcpv4::Socket on one Ethernet interface; the harness applies Configured/Deconfigured to the interface exactly like examples/dhcp_client.rs; device back-pressure (transmit() refusing every frame between a block-tx and an unblock-tx event) is an event dimension in the configurations marked bp: true, elsewhere the device never refuses".into());
     rep.assumptions.push("server messages deviate from a well-formed base message in ONE dimension (all values) or in the pair lease x T1/T2 (all values) / unicast x tiny lease; yiaddr values: 192.168.1.42, 255.255.255.255, 0.0.0.0, 224.0.0.1 (subnet-directed broadcast is read as 'unicast', lenient)".into());
-    rep.assumptions.push("lenient readings: expiry = arrival + lease OPTION (max_lease_duration only aims time events); ACK without lease option grants nothing checkable; renew-before-rebind only demanded when the ACK carried both or none of T1/T2; 'renew and rebind attempted before expiry' only for silent server, clock following poll_at, lease (after the max_lease cap) >= 600 s; weak form 'some renewal-type REQUEST before the address is given up' for capped lease >= 10 s; an ARP request for the server counts as renewal attempt; order/attempt verdicts only for leases during which the device accepted frames all the time, solicitation bound only demanded while the device accepts frames (reference restarts at unblock-tx); back-off bound = max(discover_timeout, initial_request_timeout << ((retries-1)/2)) + 1 s + 1 ms".into());
+    rep.assumptions.push("lenient readings: the IPv4 source of a server frame is outside the statement, so an otherwise acceptable ACK from a source other than the server may be honoured or ignored (Configured after it is legitimate; arriving during a lease, the later of the two expiries counts and order/attempt clauses are dropped for that lease); expiry = arrival + lease OPTION (max_lease_duration only aims time events); ACK without lease option grants nothing checkable; renew-before-rebind only demanded when the ACK carried both or none of T1/T2; 'renew and rebind attempted before expiry' only for silent server, clock following poll_at, lease (after the max_lease cap) >= 600 s; weak form 'some renewal-type REQUEST before the address is given up' for capped lease >= 10 s; an ARP request for the server counts as renewal attempt; order/attempt verdicts only for leases during which the device accepted frames all the time, solicitation bound only demanded while the device accepts frames (reference restarts at unblock-tx); back-off bound = max(discover_timeout, initial_request_timeout << ((retries-1)/2)) + 1 s + 1 ms".into());
     rep.assumptions.push("state merging: instants relative to now (all <= now equivalent), xid value / PRNG / IPv4 ident stripped (only relations between xids matter, kept in the model image)".into());
 
-    // quick: d<=6 on the two extreme configurations, d<=5 on the others; thorough: the full
-    // 2x2x2 configuration cube (d<=9; d<=8 with ignore_naks or a max-lease cap) plus the singles-only alphabet at d<=10
+    // quick: full alphabet d<=5 on the two extreme configurations, d<=4 on five more (other
+    // retry/cap mixes, ignore_naks, back-pressure, cap 600), singles-only alphabet d<=6 (d<=5
+    // with back-pressure); thorough: the full 2x2x2 configuration cube (d<=8; d<=7 with
+    // ignore_naks or a max-lease cap), singles-only d<=9, back-pressure d<=7/8, caps 600/300 d<=6.
+    // (The IP-source dimension multiplies the bound states by the four possible server addresses.)
     let mut cfgs: Vec<(Cfg, usize)> = vec![];
     if tier == Tier::Quick {
-        cfgs.push((Cfg { retry_short: false, max_lease: None, ignore_naks: false, alpha: 0, bp: false }, 6));
-        cfgs.push((Cfg { retry_short: true, max_lease: Some(30), ignore_naks: false, alpha: 0, bp: false }, 6));
-        cfgs.push((Cfg { retry_short: false, max_lease: Some(30), ignore_naks: false, alpha: 0, bp: false }, 5));
-        cfgs.push((Cfg { retry_short: true, max_lease: None, ignore_naks: false, alpha: 0, bp: false }, 5));
-        cfgs.push((Cfg { retry_short: false, max_lease: None, ignore_naks: true, alpha: 0, bp: false }, 5));
-        cfgs.push((Cfg { retry_short: false, max_lease: None, ignore_naks: false, alpha: 0, bp: true }, 5));
+        cfgs.push((Cfg { retry_short: false, max_lease: None, ignore_naks: false, alpha: 0, bp: false }, 5));
+        cfgs.push((Cfg { retry_short: true, max_lease: Some(30), ignore_naks: false, alpha: 0, bp: false }, 5));
+        // one level deeper with the singles-only alphabet
+        cfgs.push((Cfg { retry_short: false, max_lease: None, ignore_naks: false, alpha: 1, bp: false }, 6));
+        cfgs.push((Cfg { retry_short: false, max_lease: Some(30), ignore_naks: false, alpha: 0, bp: false }, 4));
+        cfgs.push((Cfg { retry_short: true, max_lease: None, ignore_naks: false, alpha: 0, bp: false }, 4));
+        cfgs.push((Cfg { retry_short: false, max_lease: None, ignore_naks: true, alpha: 0, bp: false }, 4));
+        cfgs.push((Cfg { retry_short: false, max_lease: None, ignore_naks: false, alpha: 0, bp: true }, 4));
         cfgs.push((Cfg { retry_short: true, max_lease: Some(30), ignore_naks: false, alpha: 1, bp: true }, 5));
         // a cap long enough for the strong renew-and-rebind clause to be judged on capped leases
         cfgs.push((Cfg { retry_short: false, max_lease: Some(600), ignore_naks: false, alpha: 0, bp: false }, 4));
@@ -1513,19 +1604,19 @@ pub fn run(tier: Tier) -> i32 {
             for retry_short in [false, true] {
                 for max_lease in [None, Some(30)] {
                     // (the max-lease configurations carry the larger alphabet: one level less)
-                    cfgs.push((Cfg { retry_short, max_lease, ignore_naks, alpha: 0, bp: false }, if ignore_naks || max_lease.is_some() { 8 } else { 9 }));
+                    cfgs.push((Cfg { retry_short, max_lease, ignore_naks, alpha: 0, bp: false }, if ignore_naks || max_lease.is_some() { 7 } else { 8 }));
                 }
             }
         }
-        cfgs.push((Cfg { retry_short: false, max_lease: None, ignore_naks: false, alpha: 1, bp: false }, 10));
-        cfgs.push((Cfg { retry_short: true, max_lease: Some(30), ignore_naks: false, alpha: 1, bp: false }, 10));
+        cfgs.push((Cfg { retry_short: false, max_lease: None, ignore_naks: false, alpha: 1, bp: false }, 9));
+        cfgs.push((Cfg { retry_short: true, max_lease: Some(30), ignore_naks: false, alpha: 1, bp: false }, 9));
         // device back-pressure as an extra event dimension
-        cfgs.push((Cfg { retry_short: false, max_lease: None, ignore_naks: false, alpha: 0, bp: true }, 8));
-        cfgs.push((Cfg { retry_short: true, max_lease: Some(30), ignore_naks: false, alpha: 0, bp: true }, 8));
-        cfgs.push((Cfg { retry_short: false, max_lease: None, ignore_naks: true, alpha: 1, bp: true }, 9));
+        cfgs.push((Cfg { retry_short: false, max_lease: None, ignore_naks: false, alpha: 0, bp: true }, 7));
+        cfgs.push((Cfg { retry_short: true, max_lease: Some(30), ignore_naks: false, alpha: 0, bp: true }, 7));
+        cfgs.push((Cfg { retry_short: false, max_lease: None, ignore_naks: true, alpha: 1, bp: true }, 8));
         // caps long enough for the strong renew-and-rebind clause to be judged on capped leases
-        cfgs.push((Cfg { retry_short: false, max_lease: Some(600), ignore_naks: false, alpha: 0, bp: false }, 7));
-        cfgs.push((Cfg { retry_short: true, max_lease: Some(300), ignore_naks: false, alpha: 0, bp: false }, 7));
+        cfgs.push((Cfg { retry_short: false, max_lease: Some(600), ignore_naks: false, alpha: 0, bp: false }, 6));
+        cfgs.push((Cfg { retry_short: true, max_lease: Some(300), ignore_naks: false, alpha: 0, bp: false }, 6));
     }
     let lim = Limits::default();
     let mut per_cfg = vec![];
@@ -1564,11 +1655,13 @@ pub fn run(tier: Tier) -> i32 {
     *LABELS.lock().unwrap() = None;
     rep.cov("per_configuration", json!(per_cfg));
     rep.cov("alphabet", json!(alpha_sizes));
-    rep.cov("rule", json!("BFS over choice histories replayed on a fresh real Interface+dhcpv4::Socket; from every distinct state every enabled event: each server message of the alphabet (built from the latest client message on the wire; types OFFER/ACK/NAK/DISCOVER/INFORM/REQUEST; xid latest/earlier/foreign; chaddr own/foreign; server-id present/absent; mask /24, 255.0.255.0, absent; yiaddr unicast/broadcast/0/multicast; lease absent,0,1,2,60,600,2^32-1; T1/T2 absent,0/0,equal,inverted,>lease,T1 only,T2 only,valid,tight,(L/2,7L/8) spelled out, and in max-lease configurations (cap-1,cap),(cap,cap+1),(cap+1,L-1) plus a control lease cap-10; router/DNS present/absent; broadcast/unicast delivery), 4 two-frame bursts in ONE poll, ARP reply, clock to poll_at, +1 s, expiry-1us/expiry/expiry+1us (statement expiry and max_lease-capped expiry), silent-server run following poll_at to the end of the lease (ARP answered / not), block-tx / unblock-tx (bp configurations). One Interface::poll + drain of Socket::poll() per event; all oracles after every poll."));
+    rep.cov("rule", json!("BFS over choice histories replayed on a fresh real Interface+dhcpv4::Socket; from every distinct state every enabled event: each server message of the alphabet (built from the latest client message on the wire; types OFFER/ACK/NAK/DISCOVER/INFORM/REQUEST; xid latest/earlier/foreign; chaddr own/foreign; server-id present/absent; mask /24, 255.0.255.0, absent; yiaddr unicast/broadcast/0/multicast; lease absent,0,1,2,60,600,2^32-1; T1/T2 absent,0/0,equal,inverted,>lease,T1 only,T2 only,valid,tight,(L/2,7L/8) spelled out, and in max-lease configurations (cap-1,cap),(cap,cap+1),(cap+1,L-1) plus a control lease cap-10; router/DNS present/absent; broadcast/unicast delivery; IPv4 source of the frame = server / 0.0.0.0 / another host of the subnet / an off-subnet host, for OFFER and ACK singly and paired with unicast delivery, no-router, lease 60), 4 two-frame bursts in ONE poll, ARP reply, clock to poll_at, +1 s, expiry-1us/expiry/expiry+1us (statement expiry and max_lease-capped expiry), silent-server run following poll_at to the end of the lease (ARP answered / not), block-tx / unblock-tx (bp configurations). One Interface::poll + drain of Socket::poll() per event; all oracles after every poll."));
 
     rep.cov("caps", json!(format!("the silent-server macro event stops after {} polls (enough for a complete 600 s lease with the ARP request repeated every second); runs that hit the cap are counted as run_silent_capped (leases of 2^32-1 s) and make no attempt verdict; no other cap", RUN_CAP)));
     // narrated samples: a full lease life cycle under each retry configuration
     for (cfg, script) in [
+        (Cfg { retry_short: false, max_lease: None, ignore_naks: false, alpha: 0, bp: false }, vec!["deliver Offer{ip-src=Unspecified}", "deliver Ack{}", "advance-to-poll_at"]),
+        (Cfg { retry_short: false, max_lease: None, ignore_naks: false, alpha: 0, bp: false }, vec!["deliver Offer{ip-src=OffSubnet}", "deliver Ack{}", "run-silent-server(arp-answered=true)"]),
         (Cfg { retry_short: false, max_lease: None, ignore_naks: false, alpha: 0, bp: false }, vec!["deliver Offer{}", "deliver Ack{lease=1}", "advance-to-poll_at", "advance-to-expiry+0us", "advance-to-poll_at"]),
         (Cfg { retry_short: false, max_lease: None, ignore_naks: false, alpha: 0, bp: false }, vec!["deliver Offer{}", "deliver Ack{}", "run-silent-server(arp-answered=true)"]),
         (Cfg { retry_short: true, max_lease: Some(30), ignore_naks: false, alpha: 0, bp: false }, vec!["deliver Offer{}", "deliver Ack{}", "run-silent-server(arp-answered=false)", "advance-to-poll_at"]),
